@@ -1,8 +1,8 @@
 #!/bin/bash
 # usage: recheck_flaky.sh <ID>  -- re-run, alone and with the seeded patch applied, the tests that confirm.log reported as
 # regressions (timing / memory assertions that fail when several suites share the machine); appends the outcome to confirm.log
-id=$1
-S=/verif/seeded/$id
+dir=$1; id=$(echo $dir | cut -c1-3)
+S=/verif/seeded/$dir
 W=${SEED_WT:-/tmp/wt/verify}
 L=$S/confirm.log
 tests=$(grep "REGRESSION" $L | awk '{print $2}' | sort -u)
